@@ -69,8 +69,28 @@ package innerring
 //@   property C35
 //@   pureeffect
 
+// The cached role answers are marked fresh only by a refresh that fetched BOTH lists (inner
+// ring keys and committee) and recomputed both positions from them: a refresh cut short
+// leaves the alphabet index of an earlier membership (or the zero value, i.e. "alphabet #0")
+// behind a fresh timestamp. (C38 too: the epoch tick of a non-alphabet node is suppressed by
+// this answer.)
+//@ ghost pred innerRingListFetched() bool
+//@ ghost pred committeeFetched() bool
+//@ callrule c35_indexer_fetches in (*innerRingIndexer).update
+//@   property C35 C38
+//@   callee *).InnerRingKeys
+//@   pureeffect
+//@   defines err == nil ==> innerRingListFetched()
+//@ callrule c35_indexer_fetches_committee in (*innerRingIndexer).update
+//@   property C35 C38
+//@   callee *).Committee
+//@   pureeffect
+//@   defines err == nil ==> committeeFetched()
 //@ func (*innerRingIndexer).update
-//@   property C35
+//@   property C35 C38
+//@   ensures [cache_marked_fresh_only_by_a_complete_refresh] s.lastAccess != old(s.lastAccess) ==> err == nil && innerRingListFetched() && committeeFetched()
+//@ func (*innerRingIndexer).update
+//@   property C35 C38
 //@   ensures [failed_refresh_keeps_cache_stale] err != nil ==> s.lastAccess == old(s.lastAccess)
 
 //@ func (*Server).AlphabetIndex
